@@ -30,7 +30,7 @@ def extra(tier, seed, ctx):
             return ['error_position', 'error_position_base', 'error_position_lib']
         # known finding KF_SRC: the strong query is the witness (must still be sat and reproduce), the weak one is what must hold
         return ['error_position', 'error_position_base', 'error_position_lib', 'src_error_position'] + (['src_error_weak'] if rt.known(KF_SRC) else [])
-    return _e2.run('C06', tier, seed, ctx, modes, known_carve=KNOWN)
+    return _e2.run('C06', tier, seed, ctx, modes, known_carve=KNOWN, witness_lost=True)
 
 
 custom_replay = _e2.custom_replay
